@@ -14,6 +14,8 @@ fn main() {
             "ff" => cfg.fill_factor = v.parse().unwrap(),
             "spm" => cfg.segments_per_merge = v.parse().unwrap(),
             "few" => cfg.wal_flush_each_write = v.parse().unwrap(),
+            "buffered" => cfg.wal_buffered = v.parse().unwrap(),
+            "bufsz" => cfg.wal_buffer_size = v.to_string(),
             _ => panic!("unknown cfg {k}"),
         }
         i += 1;
